@@ -556,6 +556,54 @@ impl Model {
     }
 }
 
+#[cfg(rten_verif)]
+impl Model {
+    /// Return a summary of every constant in the model's graph and subgraphs.
+    pub fn verif_constants(&self) -> Vec<crate::verif::ConstSummary> {
+        use rten_tensor::Storage;
+
+        use crate::graph::{Graph, Node};
+        use crate::value::ValueView;
+        use crate::verif::ConstSummary;
+
+        fn visit(graph: &Graph, depth: usize, out: &mut Vec<ConstSummary>) {
+            for (_, node) in graph.iter() {
+                match node {
+                    Node::Constant(constant) => {
+                        let (elem_size, storage_len) = match constant.as_view() {
+                            ValueView::FloatTensor(t) => (4, t.storage().len()),
+                            ValueView::Int32Tensor(t) => (4, t.storage().len()),
+                            ValueView::Int8Tensor(t) => (1, t.storage().len()),
+                            ValueView::UInt8Tensor(t) => (1, t.storage().len()),
+                            ValueView::Sequence(_) => (0, 0),
+                        };
+                        out.push(ConstSummary {
+                            name: constant.name().map(|s| s.to_string()),
+                            depth,
+                            shape: constant.shape().to_vec(),
+                            elem_size,
+                            storage_len,
+                        });
+                    }
+                    Node::Operator(op) => {
+                        if let Some(sg_op) = op.operator().as_subgraph_op() {
+                            for subgraph in sg_op.subgraphs() {
+                                visit(subgraph, depth + 1, out);
+                            }
+                        }
+                    }
+                    Node::Value(_) => {}
+                }
+            }
+        }
+
+        let mut out = Vec::new();
+        visit(&self.graph, 0, &mut out);
+        out.sort_by(|a, b| (a.depth, &a.name).cmp(&(b.depth, &b.name)));
+        out
+    }
+}
+
 impl std::fmt::Debug for Model {
     fn fmt(&self, f: &mut std::fmt::Formatter<'_>) -> std::fmt::Result {
         let node_names = |ids: &[NodeId]| -> Vec<&str> {
